@@ -76,6 +76,14 @@ def query_product(thorough):
         qs.append((x0, x1, y1, y0))
         qs.append((x1, x0, y1, y0))
         qs.append((x1, None, y1, y0))
+    # slice ends a tiny dyadic step off the lattice lines (exact in float64, not in narrower types)
+    from fractions import Fraction
+    e = Fraction(1, 1024)
+    for q in rep[:6]:
+        x0, x1, y0, y1 = q
+        qs.append((x0 + e, x1 - e, y0 + e, y1 - e))
+        qs.append((x0 - e, x1 + e, y0 - e, y1 + e))
+        qs.append((x0 + e, None, None, y1 - e))
     return qs
 
 
@@ -245,11 +253,13 @@ def make_check(col, kind, subtype, T, thorough):
             return
         if exp == "empty":
             exp = []
-        xs = slice(T[0] * q[0] + T[1] if q[0] is not None else None, T[0] * q[1] + T[1] if q[1] is not None else None)
-        ys = slice(T[0] * q[2] + T[2] if q[2] is not None else None, T[0] * q[3] + T[2] if q[3] is not None else None)
+        def tq(v, t):
+            return None if v is None else T[0] * float(v) + t
+        xs = slice(tq(q[0], T[1]), tq(q[1], T[1]))
+        ys = slice(tq(q[2], T[2]), tq(q[3], T[2]))
         si = sindex_state(st)
         case = {"kind": kind, "subtype": subtype, "T": list(T), "base": [r[0] for r in hist_base(hist)],
-                "history": [list(o) for o in hist_ops(hist)], "query": list(q)}
+                "history": [list(o) for o in hist_ops(hist)], "query": [None if v is None else float(v) for v in q]}
         try:
             res = st.obj.cx[xs, ys]
         except Exception as ex:
@@ -389,7 +399,8 @@ def replay(ctx, case):
         cur = State(nobj, ncont, apply_model(cur.rows, o))
         hist.append(o)
     if case.get("query"):
-        check_query(cur, tuple(case["query"]), hist)
+        from fractions import Fraction
+        check_query(cur, tuple(None if v is None else Fraction(v) for v in case["query"]), hist)
     else:
         full_invariant(cur, hist)
     return col.violations
